@@ -4,11 +4,12 @@
    build of the current grammar and settings produces; a failed build leaves no module; an
    unchanged configuration is not regenerated.  The reason the "output is up to date" shortcut is
    sound is the inductive invariant below: an output that is newer than the grammar file was
-   generated from the grammar's current version.  (TLC checks the complete model - lexer builds,
-   token synchronisation - up to a depth: MC_CTBuild.tla.) *)
+   generated from the grammar's current version.  The invariant is preserved by every action of the model, combined
+   (lexer + parser) builds and lexer edits included.  (TLC checks the complete model, token
+   synchronisation included, up to a depth: MC_CTBuild.tla.) *)
 EXTENDS CTBuild, TLAPS
 
-CONSTANTS Versions, GInfo, Vals
+CONSTANTS Versions, GInfo, Vals, LVersions, LInfo
 AllKeys == ParserCacheKeys \cup LexerKeys \cup {"lex_wae"}
 ASSUME GInfoType == GInfo \in [Versions -> [valid : BOOLEAN, warn : BOOLEAN, sr : Nat, rr : Nat, expect : Int, expectrr : Int, tok : Nat]]
 ASSUME ValsType == BOOLEAN \subseteq Vals
@@ -17,7 +18,9 @@ OptsType(o) == o \in [AllKeys -> Vals] /\ o["wae"] \in BOOLEAN /\ o["eoc"] \in B
 
 PNext == \/ \E v \in Versions : EditGrammar(v) \/ EditGrammarSameTick(v)
          \/ \E k \in AllKeys, x \in Vals : (k \in {"wae", "eoc"} => x \in BOOLEAN) /\ SetOpt(k, x)
+         \/ \E v \in LVersions : EditLexer(v)
          \/ BuildParser(GInfo)
+         \/ BuildBoth(GInfo, LInfo)
 
 Good(out) ==          \* a module that some clean build could have produced
   LET g == GInfo[out.src] IN
@@ -41,6 +44,38 @@ LEMMA InitInv == PInit => Inv
 
 LEMMA POptsType == \A o : OptsType(o) => POpts(o) \in [ParserCacheKeys -> Vals] /\ POpts(o)["wae"] = o["wae"] /\ POpts(o)["eoc"] = o["eoc"]
   BY Keys DEF OptsType, POpts, AllKeys
+
+LEMMA OutGood ==
+  Inv => LET r == ParserBuild(GInfo, gv, gm, opts, pout, clock) IN
+         /\ r.out.present \in BOOLEAN
+         /\ r.out.present => Good(r.out) /\ r.out.mtime < clock + 1
+         /\ r.out.present /\ r.out.mtime > gm => r.out.src = gv
+  <1> SUFFICES ASSUME Inv
+               PROVE LET r == ParserBuild(GInfo, gv, gm, opts, pout, clock) IN
+                     /\ r.out.present \in BOOLEAN
+                     /\ r.out.present => Good(r.out) /\ r.out.mtime < clock + 1
+                     /\ r.out.present /\ r.out.mtime > gm => r.out.src = gv
+    OBVIOUS
+  <1> DEFINE g == GInfo[gv]
+             r == ParserBuild(GInfo, gv, gm, opts, pout, clock)
+  <1>0. g \in [valid : BOOLEAN, warn : BOOLEAN, sr : Nat, rr : Nat, expect : Int, expectrr : Int, tok : Nat]
+    BY GInfoType DEF Inv
+  <1>2. POpts(opts) \in [ParserCacheKeys -> Vals] /\ POpts(opts)["wae"] = opts["wae"] /\ POpts(opts)["eoc"] = opts["eoc"]
+    BY POptsType DEF Inv
+  <1>3. CASE ~g.valid \/ (opts["wae"] /\ g.warn)
+    <2>1. r.out = Absent  BY <1>3 DEF ParserBuild
+    <2> QED BY <2>1 DEF Absent
+  <1>4. CASE ~(~g.valid \/ (opts["wae"] /\ g.warn)) /\ (pout.present /\ pout.mtime > gm /\ pout.opts = POpts(opts) /\ pout.tok = g.tok)
+    <2>1. r.out = pout  BY <1>4 DEF ParserBuild
+    <2> QED BY <2>1, <1>4 DEF Inv, Good
+  <1>5. CASE ~(~g.valid \/ (opts["wae"] /\ g.warn)) /\ ~(pout.present /\ pout.mtime > gm /\ pout.opts = POpts(opts) /\ pout.tok = g.tok) /\ (opts["eoc"] /\ ~ExpectOK(g))
+    <2>1. r.out = Absent  BY <1>5 DEF ParserBuild
+    <2> QED BY <2>1 DEF Absent
+  <1>6. CASE ~(~g.valid \/ (opts["wae"] /\ g.warn)) /\ ~(pout.present /\ pout.mtime > gm /\ pout.opts = POpts(opts) /\ pout.tok = g.tok) /\ ~(opts["eoc"] /\ ~ExpectOK(g))
+    <2>1. r.out = [present |-> TRUE, src |-> gv, opts |-> POpts(opts), tok |-> g.tok, mtime |-> clock]
+      BY <1>6 DEF ParserBuild
+    <2> QED BY <2>1, <1>0, <1>2, <1>6 DEF Inv, Good
+  <1> QED BY <1>3, <1>4, <1>5, <1>6
 
 LEMMA StepInv == Inv /\ [PNext]_cvars => Inv'
   <1> SUFFICES ASSUME Inv, [PNext]_cvars PROVE Inv'
@@ -68,29 +103,22 @@ LEMMA StepInv == Inv /\ [PNext]_cvars => Inv'
       <3> QED BY <3>1, <3>2
     <2> QED BY <2>1, <2>3, <2>4, <2>5 DEF Inv, Good, OptsType
   <1>5. ASSUME BuildParser(GInfo) PROVE Inv'
-    <2> DEFINE g == GInfo[gv]
-               r == ParserBuild(GInfo, gv, gm, opts, pout, clock)
-    <2>0. g \in [valid : BOOLEAN, warn : BOOLEAN, sr : Nat, rr : Nat, expect : Int, expectrr : Int, tok : Nat]
-      BY GInfoType DEF Inv
-    <2>1. pout' = r.out /\ clock' = clock + 1 /\ gv' = gv /\ gm' = gm /\ opts' = opts
+    <2>1. pout' = ParserBuild(GInfo, gv, gm, opts, pout, clock).out /\ clock' = clock + 1 /\ gv' = gv /\ gm' = gm /\ opts' = opts
       BY <1>5 DEF BuildParser
-    <2>2. POpts(opts) \in [ParserCacheKeys -> Vals] /\ POpts(opts)["wae"] = opts["wae"] /\ POpts(opts)["eoc"] = opts["eoc"]
-      BY POptsType DEF Inv
-    <2>3. CASE ~g.valid \/ (opts["wae"] /\ g.warn)
-      <3>1. r.out = Absent  BY <2>3 DEF ParserBuild
-      <3> QED BY <3>1, <2>1 DEF Inv, Absent, OptsType
-    <2>4. CASE ~(~g.valid \/ (opts["wae"] /\ g.warn)) /\ (pout.present /\ pout.mtime > gm /\ pout.opts = POpts(opts) /\ pout.tok = g.tok)
-      <3>1. r.out = pout  BY <2>4 DEF ParserBuild
-      <3> QED BY <3>1, <2>1 DEF Inv, Good, OptsType
-    <2>5. CASE ~(~g.valid \/ (opts["wae"] /\ g.warn)) /\ ~(pout.present /\ pout.mtime > gm /\ pout.opts = POpts(opts) /\ pout.tok = g.tok) /\ (opts["eoc"] /\ ~ExpectOK(g))
-      <3>1. r.out = Absent  BY <2>5 DEF ParserBuild
-      <3> QED BY <3>1, <2>1 DEF Inv, Absent, OptsType
-    <2>6. CASE ~(~g.valid \/ (opts["wae"] /\ g.warn)) /\ ~(pout.present /\ pout.mtime > gm /\ pout.opts = POpts(opts) /\ pout.tok = g.tok) /\ ~(opts["eoc"] /\ ~ExpectOK(g))
-      <3>1. r.out = [present |-> TRUE, src |-> gv, opts |-> POpts(opts), tok |-> g.tok, mtime |-> clock]
-        BY <2>6 DEF ParserBuild
-      <3> QED BY <3>1, <2>0, <2>1, <2>2, <2>6 DEF Inv, Good, OptsType
-    <2> QED BY <2>3, <2>4, <2>5, <2>6
-  <1> QED BY <1>1, <1>2, <1>3, <1>4, <1>5 DEF PNext
+    <2> QED BY <2>1, OutGood DEF Inv, OptsType
+  <1>6. ASSUME NEW v \in LVersions, EditLexer(v) PROVE Inv'
+    BY <1>6 DEF Inv, EditLexer, Good, OptsType
+  <1>7. ASSUME BuildBoth(GInfo, LInfo) PROVE Inv'
+    <2>1. CASE ~LInfo[lv].valid
+      <3>1. pout' = pout /\ clock' = clock + 1 /\ gv' = gv /\ gm' = gm /\ opts' = opts
+        BY <1>7, <2>1 DEF BuildBoth
+      <3> QED BY <3>1 DEF Inv, Good, OptsType
+    <2>2. CASE LInfo[lv].valid
+      <3>1. pout' = ParserBuild(GInfo, gv, gm, opts, pout, clock).out /\ clock' = clock + 1 /\ gv' = gv /\ gm' = gm /\ opts' = opts
+        BY <1>7, <2>2 DEF BuildBoth
+      <3> QED BY <3>1, OutGood DEF Inv, OptsType
+    <2> QED BY <2>1, <2>2
+  <1> QED BY <1>1, <1>2, <1>3, <1>4, <1>5, <1>6, <1>7 DEF PNext
 
 \* after a successful build: the module of a clean build of the current grammar and settings
 THEOREM AfterBuild ==
@@ -140,15 +168,13 @@ THEOREM Unchanged ==
 \* successful one writes the lexer module of the current lexer file, settings and token set; a
 \* failed one leaves no lexer module; the parser part behaves as in a parser-only build
 THEOREM BothLexer ==
-  ASSUME NEW LInfo
-  PROVE  BuildBoth(GInfo, LInfo) =>
+  BuildBoth(GInfo, LInfo) =>
            /\ (last'.ok => lout' = [present |-> TRUE, src |-> lv', opts |-> LOpts(opts'), tok |-> GInfo[gv'].tok])
            /\ (~last'.ok => lout' = Absent)
   BY DEF BuildBoth
 
 THEOREM BothParser ==
-  ASSUME NEW LInfo
-  PROVE  BuildBoth(GInfo, LInfo) /\ LInfo[lv].valid =>
+  BuildBoth(GInfo, LInfo) /\ LInfo[lv].valid =>
            pout' = ParserBuild(GInfo, gv, gm, opts, pout, clock).out /\ gv' = gv /\ gm' = gm /\ opts' = opts /\ clock' = clock + 1
   BY DEF BuildBoth
 
